@@ -224,6 +224,11 @@ func (this *Hnsw) Search(ctx context.Context, query math.Vector, k uint) (Search
 		entrypoint, minDistance = this.greedyClosestNeighbor(query, entrypoint, minDistance, l)
 	}
 
+	// No more than Len() items can be returned, whatever k the caller asks for
+	// (k sizes the candidate set, so it must not be taken from the request unchecked)
+	if n := uint(this.Len()); k > n {
+		k = n
+	}
 	ef := math.MaxInt(this.config.ef, int(k))
 	neighbors := this.searchLevel(query, entrypoint, ef, 0)
 
